@@ -402,6 +402,97 @@ def judgeC10 (ops : List OpRec) : List String :=
     { s with cluster := evolve s.cluster op }) ({} : JSt)
   s.out
 
+/-! ### C11 -/
+
+/-- the structured replies the broker gave during an operation (ground truth), in contact order, and the cluster afterwards -/
+def truthBodies (c : Cluster) (op : OpRec) : Cluster × List (Bytes × Request × RespBody) :=
+  op.evs.foldl (fun (acc : Cluster × List (Bytes × Request × RespBody)) e => match e with
+    | .req h f _ => match Spec.parseFrame f with
+      | some r =>
+        let (c', b) := handleBody acc.1 h r
+        match b with
+        | some b => (c', acc.2 ++ [(h, r, b)])
+        | none => (c', acc.2)
+      | none => acc
+    | _ => acc) (c, [])
+
+def kindOf (code : Int) : Int := (Model.kafkaCode code).getD 0
+
+def judgeC11 (ops : List OpRec) : List String :=
+  let s := ops.foldl (fun (s : JSt) op =>
+    let s := { s with cluster := applySetup s.cluster op.setup }
+    let (c', bodies) := truthBodies s.cluster op
+    let ioFault := op.evs.any (fun e => match e with | .io _ _ => true | .connect _ ok => !ok | _ => false)
+    let s := if ioFault then s else match op.toks with
+    | _ :: "produce" :: _ =>
+      let confirms : List Model.ProduceConfirm := bodies.flatMap fun (_, _, b) => match b with
+        | .produce ts => ts.map fun (t, ps) => ⟨t, ps.map fun (p, e, o) => ⟨p, if e = 0 then .ok o else .error (kindOf e)⟩⟩
+        | _ => []
+      let bad := bodies.any fun (_, _, b) => match b with
+        | .produce ts => ts.any fun (_, ps) => ps.any fun (_, e, _) => e ≠ 0
+        | _ => false
+      if op.result.startsWith "err" then (if bodies.isEmpty then s else viol s "C11-produce-call-failed" op op.result)
+      else if op.result == fmtConfirms confirms then s
+      else viol s (if bad then "C11-produce-error-lost" else "C11-produce-result") op s!"returned `{op.result}`, brokers answered `{fmtConfirms confirms}`"
+    | ["send", _, _, _, _] =>
+      let firstBad : Option Int := bodies.findSome? fun (_, _, b) => match b with
+        | .produce ts => ts.findSome? fun (_, ps) => ps.findSome? fun (_, e, _) => if e ≠ 0 then some e else none
+        | _ => none
+      match firstBad with
+      | some e => if op.result == s!"err Kafka({kindOf e})" then s else viol s "C11-send-error" op s!"returned `{op.result}`, the partition carried code {e}"
+      | none => s
+    | _ :: api :: _ =>
+      if api == "fetch_offsets" || api == "list_offsets" then
+        let firstBad : Option (Bytes × Int × Int) := bodies.findSome? fun (_, _, b) => match b with
+          | .offsets ts => ts.findSome? fun (t, ps) => ps.findSome? fun (p, e, _) => if e ≠ 0 then some (t, p, e) else none
+          | .listOffsets ts => ts.findSome? fun (t, ps) => ps.findSome? fun (p, e, _, _) => if e ≠ 0 then some (t, p, e) else none
+          | _ => none
+        match firstBad with
+        | some (t, p, e) =>
+          let want := s!"err TPE({toHexTok t},{p},{kindOf e})"
+          if op.result == want then s else viol s "C11-offsets-error" op s!"returned `{op.result}`, expected `{want}`"
+        | none => if op.result.startsWith "err" then viol s "C11-offsets-spurious" op op.result else s
+      else if api == "commit_offsets" then
+        match bodies.getLast? with
+        | some (_, _, .offsetCommit ts) =>
+          let code := ts.findSome? fun (_, ps) => ps.findSome? fun (_, e) => if e ≠ 0 then some e else none
+          match code with
+          | some e => if op.result == s!"err Kafka({kindOf e})" then s else viol s "C11-commit-error" op s!"returned `{op.result}`, last commit answer carried code {e}"
+          | none => if op.result == "ok" then s else viol s "C11-commit-spurious" op op.result
+        | some (_, _, .groupCoordinator e _ _ _) =>
+          if e ≠ 0 then (if op.result == s!"err Kafka({kindOf e})" then s else viol s "C11-coordinator-error" op s!"returned `{op.result}`, coordinator answer carried code {e}") else s
+        | _ => s
+      else if api == "fetch_group_offsets" then
+        match bodies.getLast? with
+        | some (_, _, .offsetFetch ts) =>
+          let code := ts.findSome? fun (_, ps) => ps.findSome? fun (_, _, _, e) => if e ≠ 0 ∧ kindOf e ≠ 3 then some e else none
+          match code with
+          | some e => if op.result == s!"err Kafka({kindOf e})" then s else viol s "C11-group-fetch-error" op s!"returned `{op.result}`, answer carried code {e}"
+          | none => if op.result.startsWith "ok" then s else viol s "C11-group-fetch-spurious" op op.result
+        | some (_, _, .groupCoordinator e _ _ _) =>
+          if e ≠ 0 then (if op.result == s!"err Kafka({kindOf e})" then s else viol s "C11-coordinator-error" op s!"returned `{op.result}`, coordinator answer carried code {e}") else s
+        | _ => s
+      else if api == "fetch_messages" then
+        bodies.foldl (fun s (_, _, b) => match b with
+          | .fetch ts => ts.foldl (fun s (t, ps) => ps.foldl (fun s p =>
+              if p.err ≠ 0 then
+                let want := s!" {toHexTok t}/{p.partition}=E{kindOf p.err}"
+                if (op.result.splitOn want).length > 1 then s
+                else viol s "C11-fetch-error" op s!"partition {toHexTok t}/{p.partition} answered with code {p.err}; result `{op.result}`"
+              else s) s) s
+          | _ => s) s
+      else s
+    | ["poll"] =>
+      let firstBad : Option Int := bodies.findSome? fun (_, _, b) => match b with
+        | .fetch ts => ts.findSome? fun (_, ps) => ps.findSome? fun p => if p.err ≠ 0 then some p.err else none
+        | _ => none
+      match firstBad with
+      | some e => if op.result == s!"err Kafka({kindOf e})" then s else viol s "C11-poll-error" op s!"returned `{op.result}`, a partition carried code {e}"
+      | none => s
+    | _ => s
+    { s with cluster := c' }) ({} : JSt)
+  s.out
+
 def judge (prop : String) (lines : List String) : List String :=
   let ops := parseOps lines
   match prop with
@@ -409,6 +500,7 @@ def judge (prop : String) (lines : List String) : List String :=
   | "C03" => judgeC03 ops
   | "C09" => judgeC09 ops
   | "C10" => judgeC10 ops
+  | "C11" => judgeC11 ops
   | _ => []
 
 end Kafka.Judge
